@@ -220,4 +220,19 @@ theorem translate_copy_keeps_differences (d a b : Cx K) : translate d b - transl
 example : ((3 : ℚ) / 5) * (3 / 5) + (4 / 5) * (4 / 5) = 1 := by norm_num
 end copies
 
+
+/-! ### the mechanism of the known finding `pslg:duplicate-among-arcs:scale` -/
+section splitting
+open XfemmVerif.Edit
+/-- Two lines that share an end point and both pass within the tolerance of a new point (they overlap within the tolerance - the state a
+    scale or move can leave when points are merged) are both split by `addNode`, and the list then holds the piece from the new point to the
+    shared end TWICE although it held no duplicate before: witness lines 0-2 and 1-2, new point 3. -/
+theorem addNode_split_of_overlapping_lines_duplicates :
+    noDuplicateLines [(0, 2), (1, 2)] = true ∧
+    noDuplicateLines (splitLinesAt (fun _ => true) 3 [(0, 2), (1, 2)]) = false := by decide
+
+/-- when at most one line is near the new point the split creates no duplicate in this example (the ordinary case) -/
+example : noDuplicateLines (splitLinesAt (fun i => i == 0) 3 [(0, 2), (1, 2)]) = true := by decide
+end splitting
+
 end XfemmVerif.C16
